@@ -670,6 +670,7 @@ type Gen struct {
 	curBlock *ssa.BasicBlock
 	curPos   token.Pos
 	loopRI   map[int]*ssa.Alloc
+	atCallUsed map[string]bool
 	callCount map[string]int
 	curState *State
 	selemByKey map[string]string
@@ -1508,10 +1509,73 @@ func (g *Gen) lookupContract(f *ssa.Function) *Contract {
 	return nil
 }
 
+// markAtCall records that an `at call <k> …` clause met a call site; clauses that meet none are specification errors
+// (reported by checkAtCallUsed): a renamed or removed callee must not make an obligation disappear.
+func (g *Gen) markAtCall(k string) {
+	if g.atCallUsed == nil {
+		g.atCallUsed = map[string]bool{}
+	}
+	g.atCallUsed[k] = true
+}
+
+func (g *Gen) checkAtCallUsed() {
+	if g.ctr == nil {
+		return
+	}
+	seen := map[string]bool{}
+	for k := range g.ctr.AtCall {
+		seen[k] = true
+	}
+	for k := range g.ctr.AtCallDo {
+		seen[k] = true
+	}
+	for k := range g.ctr.AtCallBefore {
+		seen[k] = true
+	}
+	var ks []string
+	for k := range seen {
+		if !g.atCallUsed[k] {
+			ks = append(ks, k)
+		}
+	}
+	sort.Strings(ks)
+	for _, k := range ks {
+		g.note("spec error: `at call %s` matches no call site of this function", k)
+	}
+}
+
 // usedContracts records every contract entry that was looked up successfully; entries never used are reported.
 var usedContracts = map[string]bool{}
 
 func (g *Gen) call(c *ssa.CallCommon, res ssa.Value, st *State, pos token.Pos) {
+	if g.ctr != nil && g.ctr.AtCallBefore != nil {
+		name := calleeName(c)
+		ord := g.callOrdinal(c, name)
+		short := name
+		if f, ok := c.Value.(*ssa.Function); ok && f.Pkg != nil {
+			short = f.RelString(f.Pkg.Pkg)
+		}
+		keys := []string{name, fmt.Sprintf("%s#%d", name, ord)}
+		if short != name {
+			keys = append(keys, short, fmt.Sprintf("%s#%d", short, ord))
+		}
+		for _, k := range keys {
+			for _, h := range g.ctr.AtCallBefore[k] {
+				g.markAtCall(k)
+				env := &SpecEnv{g: g, st: st, old: g.entry, fn: g.f, argOverride: map[string]Term{}, bound: map[string]Term{}, boundTypes: map[string]types.Type{}, evalBlock: g.curBlock, role: roleAssert}
+				for i, a := range c.Args {
+					env.bound[fmt.Sprintf("arg%d", i)] = g.val(a, st)
+					env.boundTypes[fmt.Sprintf("arg%d", i)] = a.Type()
+				}
+				t, err := env.evalBool(h.Expr)
+				if err != nil {
+					g.note("spec error in before-clause [%s]: %v", h.Label, err)
+					continue
+				}
+				g.addOb("before", h.Label, pos, st, t.S)
+			}
+		}
+	}
 	g.call0(c, res, st, pos)
 	// proof hints attached to this call site
 	if g.ctr == nil || (g.ctr.AtCall == nil && g.ctr.AtCallDo == nil) {
@@ -1533,10 +1597,16 @@ func (g *Gen) call(c *ssa.CallCommon, res ssa.Value, st *State, pos token.Pos) {
 	}
 	for _, k := range keys {
 		hints = append(hints, g.ctr.AtCall[k]...)
+		if len(g.ctr.AtCall[k]) > 0 {
+			g.markAtCall(k)
+		}
 	}
 	var dos []GhostSet
 	for _, k := range keys {
 		dos = append(dos, g.ctr.AtCallDo[k]...)
+		if len(g.ctr.AtCallDo[k]) > 0 {
+			g.markAtCall(k)
+		}
 	}
 	if hints == nil && dos == nil {
 		return
@@ -1819,6 +1889,14 @@ func (g *Gen) call0(c *ssa.CallCommon, res ssa.Value, st *State, pos token.Pos) 
 		g.note("unknown call %s: heap havocked", name)
 	} else {
 		g.note("unknown call %s: assumed frame-empty", name)
+		// Under frame checking, a function WITH a contract may only call functions of this repository through a contract
+		// (an empty `//@ func f` block states "frame-empty, promises nothing" explicitly): a callee that is edited to
+		// write shared state (sort a shared slice in place, say) would otherwise stay invisible to its caller's frame.
+		// Callees verified by this same unit without a contract (sweep) are exempt; that their effects are not seen
+		// by callers inside the unit is a listed limit.
+		if callee, ok := c.Value.(*ssa.Function); ok && os.Getenv("GOVC_FRAME") != "" && g.ctr != nil && g.inlining == 0 && callee.Pkg != nil && strings.HasPrefix(callee.Pkg.Pkg.Path(), "github.com/tmpim/casket") && !inUnit(callee) {
+			g.addObNoAssume("frame", fmt.Sprintf("call_%s/callee_has_no_contract", callee.Name()), pos, st, "false")
+		}
 	}
 	if res != nil {
 		if _, isTuple := res.Type().(*types.Tuple); !isTuple {
